@@ -97,6 +97,14 @@ let run (path : string) =
            | 3 ->
              let (k, items) = restore_code (counter_restore the_table row.p_mod row.p_byte) in
              let its = L.filter_map (fun b -> Hashtbl.find_opt stats (p.m, int_of_z b)) items in
+             (* the records the counter is computed from share their prefix with records imported from
+                OTHER fields (auction V1: surplus, debt and dutch auctions all live under prefix 17, the
+                counter is the id of the last DUTCH auction): the prefix dump does not tell them apart, so
+                the value is not predicted (the prefix itself is still judged by holds_C20_prefix) *)
+             let shared b =
+               L.length (L.filter (fun r -> ocaml_of_coq r.i_mod = p.m && r.i_arg = AFields &&
+                                            L.exists (fun w -> int_of_z w = int_of_z b) r.i_writes) the_table.t_imp) >= 2 in
+             let k = if L.exists shared items then z_of_int 0 else k in
              let expected = (match int_of_z k with
                  | 1 -> Some (L.fold_left (fun a q -> Z.max a q.max_n) Z.zero its)
                  | 2 -> Some (L.fold_left (fun _ q -> q.last_n) Z.zero its)
